@@ -322,7 +322,7 @@ def einsum_correspondence(chk, n_max: int):
     from ampform.sympy._array_expressions import ArrayMultiplication, MatrixMultiplication
 
     reqs = [("A", n) for n in range(n_max + 1)] + [("M", n) for n in range(n_max + 1)]
-    out = common.lean_run("Ampverif/Model/C08Einsum.lean", "".join(f"{c} {n}\n" for c, n in reqs))
+    out = common.lean_run("Ampverif/Drivers/C08Einsum.lean", "".join(f"{c} {n}\n" for c, n in reqs))
     got = out.split("\n")[: len(reqs)]
     if len(got) != len(reqs):
         chk.broken_correspondence("einsum-model", f"driver returned {len(got)} lines for {len(reqs)} requests")
